@@ -20,12 +20,67 @@ type case = {
   mutable ast_reparsed : node option;
 }
 
+(* source maps handed over for decoding / chaining / lookups (extracted SrcMap functions) *)
+let maps : (string * string) list ref = ref []
+let queries : (int * int) list ref = ref []
+
+let z_of_int (i : int) : z = if i = 0 then Z0 else if i > 0 then Zpos (pos_of_int i) else Zneg (pos_of_int (-i))
+let int_of_z = function Z0 -> 0 | Zpos p -> int_of_pos p | Zneg p -> - (int_of_pos p)
+
+let decode_map (s : string) : raw_token list option = decode_mappings (explode s)
+
+let tok_json (t : raw_token) : jv =
+  match t.rt_src with
+  | None -> JL [ JI (int_of_n t.rt_gl); JI (int_of_z t.rt_gc) ]
+  | Some ((si, sl), sc) ->
+      JL ([ JI (int_of_n t.rt_gl); JI (int_of_z t.rt_gc); JI (int_of_z si); JI (int_of_z sl); JI (int_of_z sc) ]
+          @ (match t.rt_name with Some n -> [ JI (int_of_z n) ] | None -> []))
+
+let key_of (t : raw_token) = (int_of_n t.rt_gl, int_of_z t.rt_gc)
+let sort_tokens (l : raw_token list) = List.stable_sort (fun a b -> compare (key_of a) (key_of b)) l
+let posn (l, c) = (n_of_int l, n_of_int c)
+
+let run_maps (parts : string list) : (string * jv) list =
+  let dec name = match List.assoc_opt name !maps with Some s -> decode_map s | None -> None in
+  let decoded =
+    if List.mem "decode" parts then
+      List.map (fun (name, s) ->
+        ("map_" ^ name, match decode_map s with Some ts -> JL (List.map tok_json ts) | None -> JS "undecodable")) !maps
+    else [] in
+  let chained =
+    if List.mem "chain" parts then
+      match dec "R", dec "O" with
+      | Some r, Some o ->
+          let m1 = List.filter_map (fun t -> match t.rt_src with
+              | Some ((_, sl), sc) -> Some (posn (key_of t), posn (int_of_z sl, int_of_z sc)) | None -> None) r in
+          let m2 = List.filter_map (fun t -> match t.rt_src with
+              | Some _ -> Some (posn (key_of t), t) | None -> None) (sort_tokens o) in
+          let c = chain m1 m2 in
+          [ ("chain", JL (List.map (fun ((gl, gc), t) ->
+                 tok_json { t with rt_gl = gl; rt_gc = z_of_int (int_of_n gc) }) c)) ]
+      | _, _ -> [ ("chain", JS "undecodable") ]
+    else [] in
+  let looked =
+    if List.mem "lookup" parts then
+      match dec "M" with
+      | Some m ->
+          let toks = List.map (fun t -> (posn (key_of t), t)) (sort_tokens m) in
+          [ ("lookups", JL (List.map (fun q ->
+                 match lookup toks (posn q), find_entry toks (posn q) with
+                 | Some (_, t), Some (_, t') -> JL [ tok_json t; tok_json t' ]
+                 | None, None -> JL []
+                 | Some (_, t), None -> JL [ tok_json t; JS "none" ]
+                 | None, Some (_, t') -> JL [ JS "none"; tok_json t' ]) (List.rev !queries))) ]
+      | None -> [ ("lookups", JS "undecodable") ]
+    else [] in
+  decoded @ chained @ looked
+
 (* raw (unresolved) configuration for the to_config model *)
 let raw_opts : (string * string) list ref = ref []
 let raw_methods : raw_method list ref = ref []
 let raw_has_methods = ref false
 
-let fresh () = raw_opts := []; raw_methods := []; raw_has_methods := false; {
+let fresh () = raw_opts := []; raw_methods := []; raw_has_methods := false; maps := []; queries := []; {
   id = ""; prefix = ""; methods = []; litcallers = []; verb = VInformation; literals = true;
   chain = false; comments = false; prestmts = []; file = ""; src = "";
   ast_in = None; ast_out = None; ast_reparsed = None }
@@ -116,6 +171,8 @@ let () =
        | [ "IN"; s ] -> !c.ast_in <- Some (parse_sexp s)
        | [ "OUT"; s ] -> !c.ast_out <- Some (parse_sexp s)
        | [ "REPARSED"; s ] -> !c.ast_reparsed <- Some (parse_sexp s)
+       | [ "MAP"; name; m ] -> maps := (name, unescape m) :: !maps
+       | [ "QUERY"; l; c ] -> queries := (int_of_string l, int_of_string c) :: !queries
        | [ "RAWOPT"; k; v ] -> raw_opts := (k, unescape v) :: !raw_opts
        | [ "RAWMETHODS" ] -> raw_has_methods := true
        | [ "RAWMETHOD"; src; dst; op; awc ] ->
@@ -128,6 +185,7 @@ let () =
            let res = ref [ ("id", JS !c.id) ] in
            (try
               if List.mem "model" parts then res := !res @ run_model parts !c;
+              if !maps <> [] then res := !res @ run_maps parts;
               if List.mem "toconfig" parts then begin
                 let ob k = match List.assoc_opt k !raw_opts with Some "1" -> Some true | Some "0" -> Some false | _ -> None in
                 let os k = match List.assoc_opt k !raw_opts with Some v -> Some (explode v) | None -> None in
